@@ -413,7 +413,7 @@ pub fn hermes_rewrite() -> Report {
 // ------------------------------------------------------------------ C03 / C01
 /// serialised form: keys present / omitted as the property states, mappings read back by the reference decoder
 pub fn raw_keys() -> Report {
-    let bound = "maps with 1..3 sources, contents on every subset (non-empty or empty-string texts), root / file / ignore list present or absent, tokens with and without source / name";
+    let bound = "maps with 1..3 sources, contents on every subset (non-empty or empty-string texts), root / file / ignore list present or absent, tokens with and without source / name; debug ids with and without an appendix, read from either key, alone and in an index section";
     let mut cases = 0u64;
     for nsrc in 1..=3usize { for cmask in 0u32..(1 << nsrc) { for root in [None, Some("r")] { for file in [None, Some("f.js")] { for ignore in [false, true] { for empty_text in [false, true] {
         cases += 1;
@@ -447,6 +447,22 @@ pub fn raw_keys() -> Report {
         let want = vec![refs::Tok { dl: 0, dc: 0, src: Some((0, 1, 2)), name: Some(0), range: false }, refs::Tok { dl: 0, dc: 4, src: None, name: None, range: false }, refs::Tok { dl: 1, dc: 1, src: Some((nsrc as u32 - 1, 3, 1)), name: None, range: false }];
         if dec != Ok(want.clone()) { return r("raw_keys", bound, cases, Some(format!("{ctx}: mappings {m:?} read back as {dec:?}, expected {want:?}"))); }
     } } } } } }
+    // debug_id carries the map's value verbatim (appendix included), also in the embedded map of an index section; the key is left out when there is none
+    for id in [None, Some("00000000-0000-0000-0000-000000000001"), Some("dfb8e43a-f242-3d73-a453-aeb6a777ef75-a"), Some("dfb8e43a-f242-3d73-a453-aeb6a777ef75-ff12")] { for key in ["debug_id", "debugId"] { for nested in [false, true] {
+        cases += 1;
+        let inner = format!(r#"{{"version":3,{}"sources":["a.js"],"names":[],"mappings":"AAAA"}}"#, id.map(|i| format!(r#""{key}":"{i}","#)).unwrap_or_default());
+        let doc = if nested { format!(r#"{{"version":3,"sections":[{{"offset":{{"line":0,"column":0}},"map":{inner}}}]}}"#) } else { inner.clone() };
+        let dm = match sourcemap::decode_slice(doc.as_bytes()) { Ok(m) => m, Err(e) => return r("raw_keys", bound, cases, Some(format!("document {doc}: {e}"))) };
+        let held: Option<String> = match &dm { DecodedMap::Regular(m) => m.get_debug_id().map(|d| d.to_string()), DecodedMap::Index(i) => i.sections().next().and_then(|s| match s.get_sourcemap() { Some(DecodedMap::Regular(m)) => m.get_debug_id().map(|d| d.to_string()), _ => None }), _ => None };
+        if held.as_deref() != id { return r("raw_keys", bound, cases, Some(format!("document {doc}: the decoded map reports debug id {held:?}, the document says {id:?}"))); }
+        let mut out = vec![];
+        if let Err(e) = dm.to_writer(&mut out) { return r("raw_keys", bound, cases, Some(format!("to_writer: {e}"))); }
+        let v: serde_json::Value = match serde_json::from_slice(&out) { Ok(v) => v, Err(e) => return r("raw_keys", bound, cases, Some(format!("output is not JSON: {e}"))) };
+        let o = if nested { &v["sections"][0]["map"] } else { &v };
+        let written = o.get("debug_id").map(|x| x.as_str().map(|s| s.to_string()));
+        let want = id.map(|i| Some(i.to_string()));
+        if written != want { return r("raw_keys", bound, cases, Some(format!("map with debug id {id:?} (read from key {key}{}): the output carries debug_id = {written:?}, expected {want:?}", if nested { ", in an index section" } else { "" }))); }
+    } } }
     r("raw_keys", bound, cases, None)
 }
 
